@@ -181,6 +181,10 @@ pub struct ExecReq {
     /// CPU allowance per step in seconds (None: 10)
     #[serde(default)]
     pub cpu_limit_s: Option<u64>,
+    /// before the first step, put a long stale file at every step's `-o` path (left over by an
+    /// earlier run): what a command writes there must not depend on it
+    #[serde(default)]
+    pub stale_out: bool,
     pub steps: Vec<Step>,
 }
 
